@@ -27,7 +27,7 @@ This semantic property of the library should always hold:
 
 {rel}
 
-YOUR TASK: produce THREE different, independent changes to the library source (under elementpath/ only, not the tests) each of which BREAKS this property while the package still imports and the existing test-suite still passes exactly as before (same failing set as the baseline). This is a THIRD round: two earlier rounds already produced the changes summarised below, and all of them are detected by a verification harness (which by now also re-evaluates every parsed expression several times with different inputs, checks process-wide caches and tables after use, uses values beyond 2^53 and empty-string text chunks). Produce changes of a DIFFERENT NATURE from all of them - other clauses of the property text, other code sites, other mechanisms. Think about what a maintainer could realistically get wrong: an off-by-one at a boundary that tiny examples do not reach, a wrong operator or swapped arguments in one rarely taken branch, a type/kind confusion for one node kind or one datatype, an error path that changes state, mishandling of one specific Unicode range / timezone / namespace / sign / zero / NaN / empty value, a difference that exists only for one parser version (1.0, 2.0, 3.0 or 3.1) or one tree library (xml.etree vs lxml) or one API entry point (select vs iter_select vs Selector vs token.evaluate), a wrong default, or an interaction of two language features. Each change must still clearly violate the property AS STATED (quote the clause it violates), be realistic, and be as hard to notice as you can make it.
+YOUR TASK: produce THREE different, independent changes to the library source (under elementpath/ only, not the tests) each of which BREAKS this property while the package still imports and the existing test-suite still passes exactly as before (same failing set as the baseline). This is round {rnd}: {int(rnd) - 1} earlier rounds already produced the changes summarised below, and all of them are detected by a verification harness (which by now also re-evaluates every parsed expression several times with different inputs, checks process-wide caches and tables after use, uses values beyond 2^53 and empty-string text chunks). Produce changes of a DIFFERENT NATURE from all of them - other clauses of the property text, other code sites, other mechanisms. Think about what a maintainer could realistically get wrong: an off-by-one at a boundary that tiny examples do not reach, a wrong operator or swapped arguments in one rarely taken branch, a type/kind confusion for one node kind or one datatype, an error path that changes state, mishandling of one specific Unicode range / timezone / namespace / sign / zero / NaN / empty value, a difference that exists only for one parser version (1.0, 2.0, 3.0 or 3.1) or one tree library (xml.etree vs lxml) or one API entry point (select vs iter_select vs Selector vs token.evaluate), a wrong default, or an interaction of two language features. Each change must still clearly violate the property AS STATED (quote the clause it violates), be realistic, and be as hard to notice as you can make it.
 
 Earlier rounds (do NOT repeat these mechanisms):
 ''' + '\n'.join(earlier) + f'''
